@@ -620,3 +620,33 @@ def multirec_family(n, seed):
         seen.add(c)
         out.append(p)
     return out
+
+
+def selfpred_family(n, seed):
+    """Ground rules whose body is ONE positive literal of the head's own predicate (r(c1) :- r(c2).), acyclic chains and
+    cycles, next to probabilistic facts of the same predicate and rules through another predicate."""
+    rng = random.Random(seed * 1213 + 3)
+    out, seen, tries = [], set(), 0
+    while len(out) < n and tries < 60 * n + 100:
+        tries += 1
+        consts = ["c1", "c2", "c3"]
+        p = progs.empty_program(consts)
+        for c in rng.sample(consts, rng.randint(1, 2)):
+            p["facts"].append({"p": [rng.randint(2, 8), 10], "atom": atom("r", c)})
+        p["facts"].append({"p": [rng.randint(2, 8), 10], "atom": atom("s", rng.choice(consts))})
+        pairs = [(a, b) for a in consts for b in consts if a != b]
+        rng.shuffle(pairs)
+        for a, b in pairs[:rng.randint(1, 4)]:
+            p["rules"].append({"head": atom("r", a), "body": [lit(atom("r", b))]})
+        if rng.random() < 0.5:
+            p["rules"].append({"head": atom("r", "X"), "body": [lit(atom("s", "X"))]})
+        if rng.random() < 0.3:
+            p["rules"].append({"head": atom("t", rng.choice(consts)), "body": [lit(atom("r", rng.choice(consts))), lit(atom("s", "X"))]})
+        rng.shuffle(p["rules"])
+        p["queries"] = [atom("r", c) for c in consts] + ([atom("t", "W")] if any(r["head"]["f"] == "t" for r in p["rules"]) else [])
+        c = progs.canon(p)
+        if c in seen:
+            continue
+        seen.add(c)
+        out.append(p)
+    return out
